@@ -89,7 +89,7 @@ CHECKS = {
     },
     "C12": {
         "scenarios": [{"name": "inband"}, {"name": "assetrates"}, {"name": "ledger"}],
-        "accept": ["inband:", "rates:", "assetrates:"],
+        "accept": ["inband:", "rates:", "assetrates:", "conversion:executed-without-rates"],
         "technique": "Lean: rates_recorded_exact — whenever a block's grading step makes rates available the rate table grows by exactly the rows of the selected asset list (winning OPR, filtered against the winning SPR by the era's band rule) with PEG priced by the phase; rates of other heights untouched by any block, for every chain; no rates => holding phase is the identity; band constants regenerated. Tie: exact binary64 band test vs Go at band edges; real GetAssetRates(V0) on generated winner lists; lock-step chains; monitors: PEG price by phase, no winners (independent grading) => no rate rows",
         "assumptions": [ORACLES, "a healthy Factom node serves each height once"],
         "design_ref": "DESIGN.md §7 C12",
